@@ -22,7 +22,7 @@ RULE = ("bodies of boundary lengths (0, 1, 243..245, 487..489, k*244+-1, random 
         "and of a block whose checksum is 0x0081 (enumerated); 1-3 bytes altered at once with the checksum forced to 0000 / FFFF / "
         "swapped / one byte zero / sum of data only (judged by the reference parser); system bytes reused after a completed message; "
         "two protocol objects fed multi-block messages with the same system bytes (interleaved, or abandoned and repeated); "
-        "distinct by (oracle, header fields, body hash | corruption position and mask); all are non-trivial")
+        "distinct by (oracle, header fields, body hash | corruption position and mask); all are non-trivial; plus: rounds with 33-70 multi-block messages open at the same moment")
 ASSUMPTIONS = ["lib/wire.py implements the SEMI E4 block layout and checksum", "corruption of the length byte is outside the "
                "statement and only required not to yield an accepted block", "reassembly is fed in order within a message"]
 LEVEL_TEXT = ("Fault enumeration: every single-byte corruption (position x mask set) of four block sizes is applied to the "
